@@ -7,7 +7,7 @@ RULE = ('exhaustive matrix for 1..3 (quick) / 1..4 (thorough) named parameters: 
         'ARGS / KWARGS_WITH_NONE / KWARGS_WITHOUT_NONE x strict on/off (n = 4: alternating) x all source patterns {plain, external with a value, external without}^n '
         '(EnvironmentVariableParameter and a harness-defined ExternalParameter alternate); method, async, number of defaulted parameters, '
         'required, Parameter default, the position of a None / falsy value and the NAMES of the parameters (a, b, c, d / an ordinary parameter '
-        'called args in first, middle or last position / kwargs / cls) and a default value \'*args\' (the text *args inside str(signature)) cycle with a counter.  Plus seeded structured programs as in '
+        'called args in first, middle or last position / kwargs / cls / names from a pool of ~50: single letters, substrings and superstrings of self, cls, args, kwargs, the own keywords and locals of the library) and a default value \'*args\' (the text *args inside str(signature)) cycle with a counter.  Plus seeded structured programs as in '
         'C12 without VAR_POSITIONAL parameter (ordinary parameters called args, kwargs, cls, and self in a non-first position; histories of '
         'calls on one decorated function object with re-entrant validators; keyword-only parameters, value types, chains, None and the falsy values 0, \'\', [], {}, (), False, 0.0, '
         'ignore_input, a keyword called self) and Flask sources (FlaskJson/Form/Get/Header/PathParameter under app.test_request_context).  non-trivial = the call carries an argument or a Parameter is declared')
